@@ -42,6 +42,12 @@ static void wide_alias_family(std::vector<Text>&out){
   for(const char*b:{"s1+-.:a","http://u%4a:p@h.ex%41:80/p%2f;=/q?k=v&%7e#f%3A","//[v1a.x:y]/","//[vF1.~]","//[1:2:3:4:5:6:7:8]","//[::ffff:1.2.3.4]:8","//[a:B::c]:0","//1.2.3.4:5","//255.0.10.99","a/./../b","/a//b?","?q/?#","#f/?","a%41:b","//u@","//h:","s:/.//a","s:%2E%2e/x","//[::1]"}){
     Text t=T(b); for(size_t i=0;i<t.size();++i) for(int add:{256,0x10000,0x4100}){ Text v=t; v[i]+=add; out.push_back(v); } } }
 
+// a percent-escape (one, two, three in a row) directly in front of and behind every delimiter, in every component, with and without user info
+static void escape_adjacent_family(std::vector<Text>&out){
+  for(const char*ui:{"","u@","u:p@","%41@","u%41:%42@"}) for(const char*h:{"%41","a%41","%41%42","%41a","a%41%42%43","caf%E9","%e9%E9x"}) for(const char*tail:{"",":",":80",":80/m","/","/p%41","/%41/%42%43?%44#%45","?q","?%41","#f","#%41%42"})
+    for(const char*sc:{"","s:"}) out.push_back(T(sc)+T("//")+T(ui)+T(h)+T(tail));
+  for(const char*p:{"%41","%41/","/%41","a%41:b","%41:b","s:%41","s:%41%42/%43","%41%42%43?%41%42%43#%41%42%43","/a%41","?%41","#%41","%41?","%41#"}) out.push_back(T(p)); }
+
 static void late_shapes(std::vector<Text>&out){
   for(int n=1;n<=5;++n) for(int m=0;m<=4;++m){
     Text a(n,'a'), d(m,'1');
@@ -121,7 +127,7 @@ VH_DRIVER(parse_log){
   Rng R(g.seed); LogState S; std::vector<int> all={0,1,2,3,4,5};
   std::vector<Text> in;
   if(mode=="comp"||mode=="c04"){
-    ip_family(R,in,g.thorough); late_shapes(in); wide_alias_family(in); size_t nforced=in.size();
+    ip_family(R,in,g.thorough); late_shapes(in); wide_alias_family(in); escape_adjacent_family(in); size_t nforced=in.size();
     accepting_over(A("a1:/?#.%4@+-"),g.thorough?7:5,T(""),in);
     accepting_over(A("/a1:@[].%425v"),g.thorough?6:4,T("//"),in);
     accepting_over(A("]:.01259afFg"),g.thorough?7:5,T("//["),in);
@@ -158,16 +164,20 @@ VH_DRIVER(parse_log){
     // every prefix of a longer text, parsed as an explicit range in the middle of a buffer with varying trailing content,
     // and flush against the guard page; the recorded outcome must be the specification's outcome for the range alone.
     std::vector<Text> texts; late_shapes(texts); ip_family(R,texts,false); { auto c=corpus_uris(R,false,600); texts.insert(texts.end(),c.begin(),c.end()); }
-    for(const char*s:{"s://u%41@h%4a:1/p%2Fq?a%5b#f%7E","//[::ffff:1.2.3.4]:80/","//[v1F.a:b]/","//[1:2:3:4:5:6:7:8]","http://user:pw@www.example.org:8080/a/b/../c?x=1&y=2#frag","//255.255.255.255:65535","a%41%42:b"}) texts.push_back(T(s));
+    // (these come FIRST and all of their prefixes are always run: every construct that ends a range - port digits behind an IP literal or
+    // user info, escapes, each IP literal kind, the scheme / first-segment decision)
+    std::vector<Text> forced; for(const char*s:{"s://u%41@h%4a:1/p%2Fq?a%5b#f%7E","//[::ffff:1.2.3.4]:80/","//[v1F.a:b]/","//[1:2:3:4:5:6:7:8]","http://user:pw@www.example.org:8080/a/b/../c?x=1&y=2#frag","//255.255.255.255:65535","a%41%42:b",
+      "//[::1]:8080/x","ftp://user@host:21/","//u:p@1.2.3.4:99","//[vF.a]:443","//@:1","//h:65535?q#f","s:/a/b","s:a/b?q","/a/b#f","//u@[1::2]:3"}) forced.push_back(T(s));
+    texts.insert(texts.begin(),forced.begin(),forced.end());
     std::vector<Text> trails={T("]"),T("0123456789"),T("abcdefABCDEF%41"),T(":@/?#[]"),Text(8,255),T("...1.1.1]")};
     // a syntax error AFTER a complete component: every kind of authority (each allocates differently) followed by every kind of
     // error in port / path / query / fragment, through all six entry points (the state-based ones do no second free of their own)
     { const char* auths[]={"//1.2.3.4","//u@1.2.3.4","//u:p@10.0.0.1:8080","//[::1]","//u@[::ffff:1.2.3.4]:80","//[v1.x]","//h","//u@h:1","s://1.2.3.4","//1.2.3.4:","//"};
       const char* errs[]={"/%","/%4","/%zz","/a/b/c%","/a b","/a/b[","?%","?q%4","?a b","#%","#f%zz","#a#b","/a?b#c%g",":x","/a/../%","/\\"};
       for(auto a:auths) for(auto e:errs) log_input(S,T(a)+T(e),all,"flush"); }
-    size_t lim= g.thorough? texts.size() : std::min<size_t>(texts.size(),(size_t)want/20);
-    double step=(double)texts.size()/lim;
-    for(size_t ti=0;ti<lim;++ti){ const Text&t=texts[(size_t)(ti*step)];
+    size_t nf=forced.size(), lim= g.thorough? texts.size() : std::min<size_t>(texts.size(),nf+(size_t)want/20);
+    double step= lim>nf? (double)(texts.size()-nf)/(lim-nf) : 1.0;
+    for(size_t ti=0;ti<lim;++ti){ const Text&t= ti<nf? texts[ti] : texts[nf+(size_t)((ti-nf)*step)];
       for(size_t k=0;k<=t.size();++k){ Text pre(t.begin(),t.begin()+k);
         log_input(S,pre,{3,5,0},"flush");
         // in the middle of a larger buffer: the same range followed by other content (explicit-range entry points only)
